@@ -126,10 +126,20 @@ func (rs *RunState) step(kind int) {
 }
 
 func stepV1(ctx *plrt.Task, kind int) {
-	if rs, ok := ctx.Signal().(*RunState); ok && rs != nil {
+	if rs := stateV1(ctx); rs != nil {
 		rs.step(kind)
 	}
 }
+
+// Concurrent is set by checks that run scripts on several goroutines at once;
+// the monitor then identifies a run only through the task's own signal.
+var Concurrent bool
+
+// soleV1 is the run in progress when runs are strictly sequential: the
+// fallback identity of a v1 run whose task no longer hands back the signal
+// object it was given (a tree may wrap or replace it), so that the virtual
+// clock, the budget and the event recorder keep working.
+var soleV1 *RunState
 
 const v2Key = runtimev2.TaskP("verif.rs")
 
@@ -142,8 +152,13 @@ func stepV2(ctx *runtimev2.Task, kind int) {
 }
 
 func stateV1(ctx *plrt.Task) *RunState {
-	rs, _ := ctx.Signal().(*RunState)
-	return rs
+	if rs, ok := ctx.Signal().(*RunState); ok && rs != nil {
+		return rs
+	}
+	if !Concurrent {
+		return soleV1
+	}
+	return nil
 }
 
 func stateV2(ctx *runtimev2.Task) *RunState {
@@ -289,6 +304,11 @@ func RunV1(s *plrt.Script, pt *input.Point, rs *RunState) (out Outcome) {
 			out.Stack = string(debug.Stack())
 		}
 	}()
+	if !Concurrent {
+		prev := soleV1
+		soleV1 = rs
+		defer func() { soleV1 = prev }()
+	}
 	out.Err = s.Run(pt, rs)
 	return
 }
@@ -378,6 +398,8 @@ func V2Funcs() map[string]*runtimev2.Fn {
 			return runtimev2.NewRunError(ctx, "boom", e.NamePos)
 		}, CallCheck: v2ok},
 		"void": {Call: func(ctx *runtimev2.Task, e *ast.CallExpr) *errchain.PlError { return nil }, CallCheck: v2ok},
+		"sink":  declaredSink(sinkParams),
+		"vsink": declaredSink(vsinkParams),
 		"multi": {Call: func(ctx *runtimev2.Task, e *ast.CallExpr) *errchain.PlError {
 			ctx.Regs.ReturnAppend(runtimev2.V{V: int64(101), T: ast.Int}, runtimev2.V{V: "m2", T: ast.String})
 			return nil
@@ -402,6 +424,28 @@ func V2Funcs() map[string]*runtimev2.Fn {
 			ctx.Regs.ReturnAppend(runtimev2.V{V: n, T: ast.Int})
 			return nil
 		}, CallCheck: v2ok},
+	}
+}
+
+// declared-parameter probes: host functions that return nothing and fetch
+// their arguments through the library's own GetParam (fixed + optional
+// parameters, and a variadic one).
+var sinkParams = []*runtimev2.Param{{Name: "a"}, {Name: "b", Val: func() any { return int64(0) }}}
+var vsinkParams = []*runtimev2.Param{{Name: "rest", Variable: true}}
+
+func declaredSink(params []*runtimev2.Param) *runtimev2.Fn {
+	return &runtimev2.Fn{
+		CallCheck: func(ctx *runtimev2.Task, e *ast.CallExpr) *errchain.PlError {
+			return runtimev2.CheckPassParam(ctx, e, params)
+		},
+		Call: func(ctx *runtimev2.Task, e *ast.CallExpr) *errchain.PlError {
+			for i := range params {
+				if _, err := runtimev2.GetParam(ctx, e, params, i); err != nil {
+					return err
+				}
+			}
+			return nil
+		},
 	}
 }
 
